@@ -526,7 +526,15 @@ def _check_host(chk: "RelCheck", item: dict, backend: str) -> None:
                         bad = k1 == "error" and k2 != "error" and k3 != "error"
                     else:
                         bad = sorted(set(got)) != sorted(set(got_host) & set(got_plain))
-                    if bad:
+                    hit = regions.static_hit(chk.active, {"term": chk.term, "features": chk.feats, "backend": backend,
+                                                          "sql": p.get("sql", ""), "ob": "conj"}) if bad else None
+                    if bad and hit:
+                        # a structurally wrong program class that is a listed finding (e.g. a to-one join lost inside a lambda
+                        # body): the lost table reference correlates with whatever the HOST has joined, so host and plain
+                        # query do not share the error and the relative obligation sees it
+                        chk.emit("conj", backend, "known", known_id=hit, solver_s=dt, witness=w,
+                                 detail=f"apply(host, f) returns {got}; the host returns {got_host} and f on the plain query {got_plain}")
+                    elif bad:
                         chk.emit("conj", backend, "violation", solver_s=dt, witness=w,
                                  what=f"apply(host, f) returns {got}; the host returns {got_host} and f on the plain query {got_plain}")
                     else:
